@@ -7,7 +7,14 @@ S=$(mktemp -d /tmp/mutest.XXXXXX); trap 'rm -rf "$S"' EXIT
 git -C /repo archive HEAD | tar -x -C "$S"
 ( cd "$S" && git init -q && git apply "$patch" ) || { echo "PATCH-FAILED $patch"; exit 3; }
 if [ -z "${SKIP_REPO_TESTS:-}" ]; then
-  ( cd "$S" && go test -vet=off -count=1 . > "$S/test.log" 2>&1 ) || { echo "REPO-TESTS-FAIL $(basename $patch)"; tail -5 "$S/test.log"; exit 4; }
+  ok=0
+  for try in 1 2 3; do  # the repository's TLS/proxy tests are flaky under CPU load: a mutant is refused only if the same test fails 3 times
+    if ( cd "$S" && go test -vet=off -count=1 . > "$S/test.log" 2>&1 ); then ok=1; break; fi
+    grep -- '--- FAIL' "$S/test.log" | sort > "$S/fail.$try"
+  done
+  if [ $ok = 0 ] && [ -n "$(comm -12 "$S/fail.1" "$S/fail.2" | comm -12 - "$S/fail.3")" ]; then
+    echo "REPO-TESTS-FAIL $(basename $patch): $(comm -12 "$S/fail.1" "$S/fail.2" | comm -12 - "$S/fail.3" | head -3 | tr '\n' ' ')"; exit 4
+  fi
 fi
 rc=0
 for id in "$@"; do
